@@ -223,6 +223,10 @@ def clenshaw_qbfs(cs, usq, alphas=None):
     M = len(bs)-1
     prefix = 2 - 4 * x
     alphas[M] = bs[M]
+    if M == 0:
+        # a single term: there is no alphas[1], S = 2 * alphas[0]
+        return (x * (1 - x)) * (2 * alphas[0])
+
     alphas[M-1] = bs[M-1] + prefix * alphas[M]
     for i in range(M-2, -1, -1):
         alphas[i] = bs[i] + prefix * alphas[i+1] - alphas[i+2]
@@ -271,6 +275,11 @@ def clenshaw_qbfs_der(cs, usq, j=1, alphas=None):
     # seed with j=0 (S, not its derivative)
     clenshaw_qbfs(cs, usq, alphas[0])
     for jj in range(1, j+1):
+        if jj > M:
+            # derivatives of order > M vanish; the remaining rows stay zero
+            # (and M-jj would index from the end)
+            break
+
         alphas[jj][M-jj] = -4 * jj * alphas[jj-1][M-jj+1]
         for n in range(M-jj-1, -1, -1):
             # this is hideous, and just expresses:
@@ -312,14 +321,20 @@ def compute_z_zprime_Qbfs(coefs, u, usq):
     """
     # clenshaw does its own u^2
     alphas = clenshaw_qbfs_der(coefs, usq, j=1)
-    S = 2 * (alphas[0][0] + alphas[0][1])
-    # Sprime should be two times the alphas, just like S, but as a performance
-    # optimization, S = sum cn Qn u^2
-    # we're doing d/du, so a prefix of 2u comes in front
-    # and 2*u * (2 * alphas)
-    # = 4*u*alphas
-    # = do two in-place muls on Sprime for speed
-    Sprime = alphas[1][0] + alphas[1][1]
+    if len(coefs) > 1:
+        S = 2 * (alphas[0][0] + alphas[0][1])
+        # Sprime should be two times the alphas, just like S, but as a performance
+        # optimization, S = sum cn Qn u^2
+        # we're doing d/du, so a prefix of 2u comes in front
+        # and 2*u * (2 * alphas)
+        # = 4*u*alphas
+        # = do two in-place muls on Sprime for speed
+        Sprime = alphas[1][0] + alphas[1][1]
+    else:
+        # a single term: there is no alphas[..][1]
+        S = 2 * alphas[0][0]
+        Sprime = alphas[1][0]
+
     Sprime *= 4
     Sprime *= u
 
@@ -1071,6 +1086,11 @@ def clenshaw_q2d_der(cns, m, usq, j=1, alphas=None):
     #
     # return alphas
     for jj in range(1, j+1):
+        if jj > N:
+            # derivatives of order > N vanish; the remaining rows stay zero
+            # (and N-jj would index from the end)
+            break
+
         _, b, _ = abc_q2d_clenshaw(N-jj, m)
         alphas[jj][N-jj] = jj * b * alphas[jj-1][N-jj+1]
         for n in range(N-jj-1, -1, -1):
